@@ -21,7 +21,7 @@ func GenerateLayouts(t *rapid.T, use func(string) bool) *Program {
 	// types: S0 (leaf struct), optionally S1 containing S0 and/or a small array
 	mkStruct := func(name string, inner *Type) *Type {
 		st := &Type{K: KStruct, Name: name}
-		nf := g.intRange(1, 5, "nfields")
+		nf := g.intRange(1, 7, "nfields")
 		for j := 0; j < nf; j++ {
 			var ft *Type
 			switch {
@@ -43,6 +43,32 @@ func GenerateLayouts(t *rapid.T, use func(string) bool) *Program {
 		s1 := mkStruct("S1", s0)
 		g.p.Types = append(g.p.Types, s1)
 		structs = append(structs, s1)
+	}
+	// a sibling of S0: same field names, one or two fields in the middle of another width (types that
+	// look alike in every summary - same count, same first and last fields - must still be laid out apart)
+	var sib *Type
+	if g.chance(2, "sibling") {
+		sib = &Type{K: KStruct, Name: "S2"}
+		sib.Fields = append(sib.Fields, s0.Fields...)
+		nfs := len(sib.Fields)
+		lo, hi := 0, nfs-1
+		if nfs >= 4 {
+			lo, hi = 2, nfs-2
+		}
+		for c := g.intRange(1, 2, "nsibchanges"); c > 0; c-- {
+			j := g.intRange(lo, hi, "sibfield")
+			old := sib.Fields[j].T
+			nt := prims[g.intRange(0, len(prims)-1, "sibtype")]
+			if old.K == KFixed || nt.Equal(old) {
+				nt = IntT(64, false)
+				if old.Equal(nt) {
+					nt = IntT(8, true)
+				}
+			}
+			sib.Fields[j] = Field{Name: sib.Fields[j].Name, T: nt}
+		}
+		g.p.Types = append(g.p.Types, sib)
+		g.use("layout.sibling_struct")
 	}
 	val := 0
 	var valueOf func(t *Type) Expr
@@ -145,11 +171,44 @@ func GenerateLayouts(t *rapid.T, use func(string) bool) *Program {
 		a0 := &Type{K: KFixed, Elem: s0, Len: g.intRange(2, 3, "narr0")}
 		declare("arr0", a0, valueOf(a0))
 	}
+	if sib != nil {
+		declare("sb", sib, valueOf(sib))
+		sa := &Type{K: KFixed, Elem: sib, Len: 2}
+		declare("sbs", sa, valueOf(sa))
+	}
 	dump("init")
 	nops := g.intRange(3, 8, "nops")
 	for k := 0; k < nops; k++ {
 		tag := fmt.Sprintf("op%d", k)
-		switch g.intRange(0, 9, tag) {
+		opk := g.intRange(0, 12, tag)
+		if opk >= 10 && sib == nil {
+			opk -= 7
+		}
+		switch opk {
+		case 10: // leaf store in the sibling struct / an element of the sibling array
+			var ls []Expr
+			if g.chance(2, tag+"_sibarr") {
+				ls = leaves(&Index{T: sib, X: &Var{T: &Type{K: KFixed, Elem: sib, Len: 2}, Name: "sbs"}, I: &Lit{T: i32, I: big.NewInt(int64(g.intRange(0, 1, tag+"_sibi")))}}, sib)
+			} else {
+				ls = leaves(&Var{T: sib, Name: "sb"}, sib)
+			}
+			l := ls[g.intRange(0, len(ls)-1, tag+"_leaf")]
+			body = append(body, &Assign{LHS: l, Op: "=", RHS: valueOf(l.Type())})
+			g.use("layout.sibling_leaf_store")
+		case 11: // whole-value store of the sibling, or from the sibling array
+			if g.chance(2, tag+"_sibfrom") {
+				body = append(body, &Assign{LHS: &Var{T: sib, Name: "sb"}, Op: "=", RHS: &Index{T: sib, X: &Var{T: &Type{K: KFixed, Elem: sib, Len: 2}, Name: "sbs"}, I: &Lit{T: i32, I: big.NewInt(int64(g.intRange(0, 1, tag+"_sibi")))}}})
+			} else {
+				body = append(body, &Assign{LHS: &Index{T: sib, X: &Var{T: &Type{K: KFixed, Elem: sib, Len: 2}, Name: "sbs"}, I: &Lit{T: i32, I: big.NewInt(int64(g.intRange(0, 1, tag+"_sibi")))}}, Op: "=", RHS: valueOf(sib)})
+			}
+			g.use("layout.sibling_whole_store")
+		case 12: // copy of the sibling, then modify the original
+			n := g.fresh("sbc")
+			declare(n, sib, &Var{T: sib, Name: "sb"})
+			ls := leaves(&Var{T: sib, Name: "sb"}, sib)
+			l := ls[g.intRange(0, len(ls)-1, tag+"_leaf")]
+			body = append(body, &Assign{LHS: l, Op: "=", RHS: valueOf(l.Type())})
+			g.use("layout.sibling_copy_then_store")
 		case 0, 1: // element store of a whole struct
 			i := g.intRange(0, na-1, tag+"_i")
 			body = append(body, &Assign{LHS: &Index{T: st, X: &Var{T: at, Name: "arr"}, I: &Lit{T: i32, I: big.NewInt(int64(i))}}, Op: "=", RHS: valueOf(st)})
